@@ -106,7 +106,8 @@ def check_degree(e, k):
     pos = [kx > 0, v > 0, w > 0]
     wt = {nm: p for nm, p in zip(names, ps)}
     wt.update({"kx": kx, "ky": ky, "v": v, "w": w})
-    nice = [z3.And(t >= -3, t <= 3) for t in ps + [ky]] + [z3.And(t >= z3.Q(1, 2), t <= 4) for t in (kx, v, w)]
+    # readable models away from ln = 0 (at 1 every log-integral form collapses to its constant)
+    nice = [z3.And(t >= -3, t <= 3) for t in ps + [ky]] + [kx >= 2, kx <= 3, v >= z3.Q(3, 2), v <= 4, w >= 5, w <= 6]
 
     def replay_for(use_indef):
         def replay(model, ob):
@@ -117,6 +118,13 @@ def check_degree(e, k):
             b = float(model_value(model, w) or 2)
             if a == b:
                 b = a * 2
+            # ln is a free symbol in the query; natively it is the real logarithm, so points with ln = 0 hide defects
+            if kxv == 1.0:
+                kxv = 2.5
+            if a == 1.0:
+                a = 1.75
+            if b == 1.0:
+                b = 3.25
             path = e.write_replay(ob.name, {"kind": "E2-native-logint", "degree": k, "p": pv, "kx": kxv, "ky": kyv, "a": a, "b": b,
                                             "indefinite": use_indef,
                                             "statement": "F(b)-F(a) equals the integral of p(ln t) over [a,b]; F(knot.x)=knot.y"})
